@@ -426,6 +426,9 @@ func c04E2E(r *vlib.Run) {
 			var buf bytes.Buffer
 			for k := 0; k < nLines; k++ {
 				l := fmt.Sprintf("id%05d-%d e2e line ünï", k, i)
+				if k%13 == 7 {
+					l = "" // an empty line is a line, too
+				}
 				if k%37 == 5 {
 					// a very long line (longer than the transport's copy buffer, below the split limit)
 					l += " " + strings.Repeat("L", []int{40000, 70000, 140000}[(k/37)%3])
